@@ -55,6 +55,10 @@ enum Unit {
     Pos1 { quoted: bool },
     /// `${IFS=:}` / `${IFS:=:}`: assigns IFS while the word is being expanded
     IfsAssign { colon: bool, quoted: bool },
+    /// `~` (family B; only meaningful as the first unit of a word)
+    Tilde,
+    /// `$((…))` / `$(…)` / backquotes with a known result (family B, through the whole shell)
+    Subst { text: &'static str, val: &'static str, quoted: bool },
 }
 
 impl Unit {
@@ -84,6 +88,8 @@ impl Unit {
             Unit::Count => "$#".into(),
             Unit::Pos1 { quoted } => q(*quoted, "$1".into()),
             Unit::IfsAssign { colon, quoted } => q(*quoted, format!("${{IFS{}=:}}", if *colon { ":" } else { "" })),
+            Unit::Tilde => "~".into(),
+            Unit::Subst { text, quoted, .. } => q(*quoted, text.to_string()),
         }
     }
 }
@@ -144,6 +150,8 @@ struct Config {
     /// None = unset
     ifs: Option<&'static str>,
     nounset: bool,
+    /// value of HOME (family B); None = unset
+    home: Option<&'static str>,
 }
 
 const Y: &str = "b c";
@@ -155,7 +163,7 @@ fn configs() -> Vec<Config> {
             // (`é`: a multi-byte character as a field separator and inside values)
             for ifs in [None, Some(" \t\n"), Some(""), Some(":"), Some(": "), Some(" :"), Some("a"), Some("é")] {
                 for nounset in [false, true] {
-                    v.push(Config { x, params: params.clone(), ifs, nounset });
+                    v.push(Config { x, params: params.clone(), ifs, nounset, home: Some("/h") });
                 }
             }
         }
@@ -248,7 +256,7 @@ fn refexp(word: &[Unit], cfg: &Config) -> Outcome {
     // IFS can be assigned by an expansion in the word itself (`${IFS:=:}`): `$*` joins with the value
     // current at that point, field splitting (done after all expansions of the word) uses the last one
     let mut cur_ifs: Option<String> = cfg.ifs.map(|s| s.to_string());
-    for u in word {
+    for (ui, u) in word.iter().enumerate() {
         let ifs_now: String = cur_ifs.clone().unwrap_or_else(|| " \t\n".to_string());
         let ifs = ifs_now.as_str();
         let edge_ifs = |p: &str| p.chars().next().is_some_and(|c| ifs.contains(c)) || p.chars().last().is_some_and(|c| ifs.contains(c));
@@ -349,6 +357,38 @@ fn refexp(word: &[Unit], cfg: &Config) -> Outcome {
                         b.push(v, *quoted, true);
                     }
                 }
+            }
+            Unit::Subst { val, quoted, .. } => {
+                if *quoted {
+                    b.quote_mark();
+                }
+                b.push(val, *quoted, true);
+            }
+            Unit::Tilde => {
+                if ui != 0 {
+                    b.push("~", false, false);
+                    continue;
+                }
+                // the tilde-prefix reaches to the first unquoted slash (XCU 2.6.1)
+                match word.get(1) {
+                    None | Some(Unit::Lit('/')) => {}
+                    // a quoted character in the prefix: no tilde expansion
+                    Some(Unit::Sq(_) | Unit::Dq(_) | Unit::Bs(_)) => {
+                        b.push("~", false, false);
+                        continue;
+                    }
+                    Some(Unit::Var { quoted: true, .. } | Unit::Subst { quoted: true, .. }) => {
+                        b.push("~", false, false);
+                        continue;
+                    }
+                    _ => return Outcome::Unspecified("tilde-prefix with a login name or an expansion"),
+                }
+                let Some(home) = cfg.home else { return Outcome::Unspecified("~ with HOME unset") };
+                // the result is treated as if quoted (no field splitting, no pathname expansion); a
+                // trailing slash is dropped before a following slash
+                let h = if matches!(word.get(1), Some(Unit::Lit('/'))) && home.ends_with('/') { &home[..home.len() - 1] } else { home };
+                b.push(h, true, false);
+                b.quote_mark();
             }
             Unit::IfsAssign { colon, quoted } => {
                 if *quoted {
@@ -531,6 +571,92 @@ fn judge(ctx: &Ctx, units: &[Unit], text: &str, cfg: &Config, exp: &Outcome, got
     }
 }
 
+// ------------------------------------------------------------------ family B: tilde, arithmetic, command substitution
+
+/// Words of up to two units over tilde expansion, arithmetic expansion and command substitution
+/// (all three forms), next to literals, quotes and `$x`, under IFS values that contain characters
+/// of their results and HOME values that contain IFS characters, blanks, a trailing slash or
+/// nothing: only *unquoted expansion results* are split, the result of a tilde expansion is not.
+/// Through the whole shell (`args WORD`). Returns (runs, skipped as unspecified).
+fn family_b(ctx: &Ctx) -> (u64, u64) {
+    let mut alphabet: Vec<Unit> = vec![
+        Unit::Lit('/'),
+        Unit::Lit('a'),
+        Unit::Sq(" "),
+        Unit::Dq(""),
+        Unit::Var { braces: false, quoted: false },
+        Unit::Var { braces: true, quoted: true },
+    ];
+    for (text, val) in [("$((10+1))", "11"), ("$((1-2))", "-1"), ("$(echo 'a b')", "a b"), ("$(echo ' a:1b ')", " a:1b "), ("$(echo)", ""), ("`echo 'a 1 b'`", "a 1 b"), ("$(echo '/h m')", "/h m")] {
+        alphabet.push(Unit::Subst { text, val, quoted: false });
+        alphabet.push(Unit::Subst { text, val, quoted: true });
+    }
+    let mut words: Vec<Vec<Unit>> = vec![vec![Unit::Tilde]];
+    for a in &alphabet {
+        words.push(vec![a.clone()]);
+        words.push(vec![Unit::Tilde, a.clone()]);
+        for b in &alphabet {
+            words.push(vec![a.clone(), b.clone()]);
+            if matches!(a, Unit::Lit('/')) {
+                words.push(vec![Unit::Tilde, a.clone(), b.clone()]);
+            }
+        }
+        // a tilde that is not at the start of the word is an ordinary character
+        words.push(vec![a.clone(), Unit::Tilde]);
+    }
+    let mut cfgs = vec![];
+    for ifs in [None, Some("1"), Some(":"), Some("/"), Some(""), Some("-"), Some(" m")] {
+        for home in [Some("/h"), Some(""), Some("/h m"), Some("/"), Some("/h/"), Some("/h:1"), Some("*"), None] {
+            cfgs.push(Config { x: Some("a b"), params: vec![], ifs, nounset: false, home });
+        }
+    }
+    let runs = AtomicU64::new(0);
+    let unspec = AtomicU64::new(0);
+    cfgs.par_iter().for_each(|cfg| {
+        for w in &words {
+            if w.windows(2).any(|p| matches!(p[0], Unit::Var { braces: false, quoted: false }) && matches!(p[1], Unit::Lit(c) if c.is_alphanumeric())) {
+                continue;
+            }
+            let exp = refexp(w, cfg);
+            let Outcome::Fields(ef, _) = &exp else {
+                unspec.fetch_add(1, Relaxed);
+                continue;
+            };
+            let text: String = w.iter().map(|u| u.text()).collect();
+            // (pathname expansion stays on: the result of a tilde expansion must not be globbed either;
+            // no other unit produces a pattern character. The working directory has files.)
+            let mut script = String::new();
+            script.push_str("x='a b'\n");
+            match cfg.home {
+                Some(h) => script.push_str(&format!("HOME={}\n", shell_quote_for_script(h))),
+                None => script.push_str("unset HOME\n"),
+            }
+            match cfg.ifs {
+                Some(i) => script.push_str(&format!("IFS={}\n", shell_quote_for_script(i))),
+                None => script.push_str("unset IFS\n"),
+            }
+            script.push_str(&format!("args {text}\n"));
+            let mut setup = Setup::script(&script);
+            setup.dirs.push("/tmp/g".into());
+            setup.files.push(("/tmp/g/f1".into(), vec![], 0o644));
+            setup.files.push(("/tmp/g/h m".into(), vec![], 0o644));
+            setup.cwd = Some("/tmp/g".into());
+            let r = vsh::run_once(&setup, &Default::default());
+            runs.fetch_add(1, Relaxed);
+            let want = format!("args{}", ef.iter().map(|f| format!("[{f}]")).collect::<String>());
+            if r.all_trace() != vec![want.clone()] || r.panic.is_some() {
+                let class = if w.iter().any(|u| matches!(u, Unit::Tilde)) { "tilde" } else { "substitution-result" };
+                ctx.violation(
+                    &format!("c01:{class}"),
+                    &format!("`args {text}` with HOME={:?} IFS={:?} gave {:?}, expected {want}; stderr={:?}", cfg.home, cfg.ifs, r.all_trace(), r.stderr),
+                    json!({"script": script, "cwd": "/tmp/g"}),
+                );
+            }
+        }
+    });
+    (runs.load(Relaxed), unspec.load(Relaxed))
+}
+
 // ------------------------------------------------------------------ read
 
 fn ref_read(line: &str, nvars: usize, ifs: &str, raw: bool) -> Option<Vec<String>> {
@@ -603,6 +729,12 @@ pub fn replay(case: &serde_json::Value) -> i32 {
         let mut s = Setup::script(script);
         if let Some(i) = case["stdin"].as_str() {
             s.stdin = Some(i.as_bytes().to_vec());
+        }
+        if let Some(cwd) = case["cwd"].as_str() {
+            s.dirs.push(cwd.into());
+            s.files.push((format!("{cwd}/f1"), vec![], 0o644));
+            s.files.push((format!("{cwd}/h m"), vec![], 0o644));
+            s.cwd = Some(cwd.into());
         }
         let r = vsh::run_once(&s, &Default::default());
         println!("{script}\n=> {:?} stderr={}", r.all_trace(), r.stderr);
@@ -789,8 +921,11 @@ pub fn run(tier: Tier) -> i32 {
         }
     });
 
+    let (b_runs, b_unspec) = family_b(&ctx);
     let cov = json!({
-        "evaluations": evals.load(Relaxed) + shell_runs.load(Relaxed) + read_evals.load(Relaxed),
+        "family_b_tilde_arithmetic_substitution_runs": b_runs,
+        "family_b_skipped_unspecified": b_unspec,
+        "evaluations": evals.load(Relaxed) + shell_runs.load(Relaxed) + read_evals.load(Relaxed) + b_runs,
         "distinct_nontrivial": nontrivial.load(Relaxed),
         "rule": format!("every word of <= {maxlen} units over {} units (literal, quoting forms ' ' '' \" \" \"\" \\<blank> \\:, $x ${{x}} \"$x\" \"${{x}}\" ${{#x}}, the eight switch forms with inner words a / \"b c\" / $y / b c bare and inside double quotes, the four trims with four patterns, $@ \"$@\" $* \"$*\" $# $1 \"$1\"; length 3 with a reduced outer alphabet) x 8 values of x x 5 positional-parameter lists x 7 IFS values x nounset, expanded by expand_words on a real Env and compared with refexp (fields, error class, and the assigned value for = forms); every 192nd (thorough: 48th) case also through the whole shell; plus `read` on every line of length <= 4/5 over {{a, blank, :, backslash}} x 4 IFS x 1-3 variables x -r. Non-trivial = the word contains at least one expansion unit.", us.len()),
         "samples": samples.take(),
